@@ -117,6 +117,10 @@ type c11Obs struct {
 	WL       bool   `json:"wl"`
 	RevealID int    `json:"reveal_id"` // id of the reference hash of (salt, rates, validator)
 	SignerOK bool   `json:"signer_ok"` // msg.GetSigners() == the feeder / operator field
+	// the DRIVER's own lexing of the revealed rate string (not the repo's parser): per tuple (pair id, rate > 0 ? 1 : 0);
+	// lex_ok = every element is "(a,b)"
+	Pairs [][2]int `json:"pairs"`
+	LexOK bool     `json:"lex_ok"`
 	Panic    string `json:"panic,omitempty"`
 }
 
@@ -162,6 +166,30 @@ type c11World struct {
 	salts  map[string]int
 	rates  map[string]int
 	tuples map[string]int
+	pairs  map[string]int
+}
+
+// c11Lex splits a rate string the way the wire format is documented — "(pair,rate)|(pair,rate)…" — without any code
+// of the repo: per element (pair text, rate > 0).  ok = every element has the form "(a,b)".
+func c11Lex(rates string) (ok bool, out [][2]string) {
+	ok = true
+	for _, el := range strings.Split(rates, "|") {
+		if len(el) < 3 || el[0] != '(' || el[len(el)-1] != ')' {
+			ok = false
+			continue
+		}
+		f := strings.Split(el[1:len(el)-1], ",")
+		if len(f) != 2 {
+			ok = false
+			continue
+		}
+		pos := "0"
+		if d, err := sdkmath.LegacyNewDecFromStr(f[1]); err == nil && d.IsPositive() {
+			pos = "1"
+		}
+		out = append(out, [2]string{f[0], pos})
+	}
+	return ok, out
 }
 
 func (w *c11World) id(m map[string]int, s string) int {
@@ -363,6 +391,19 @@ func (w *c11World) oracleMsg(ctx sdk.Context, op c11Op, o *c11Obs) sdk.Msg {
 		o.SaltID = w.id(w.salts, op.salt())
 		o.RatesID = w.id(w.rates, op.Rates)
 		o.RevealID = w.id(w.ids, refHash(op.salt(), op.Rates, val))
+		if w.pairs == nil {
+			w.pairs = map[string]int{}
+		}
+		var lexed [][2]string
+		o.LexOK, lexed = c11Lex(op.Rates)
+		o.Pairs = [][2]int{}
+		for _, e := range lexed {
+			pos := 0
+			if e[1] == "1" {
+				pos = 1
+			}
+			o.Pairs = append(o.Pairs, [2]int{w.id(w.pairs, e[0]), pos})
+		}
 		if tuples, e := otypes.ParseExchangeRateTuples(op.Rates); e == nil {
 			o.Parses = true
 			s, e2 := tuples.ToString()
@@ -633,6 +674,45 @@ func c11PickSalt(r *Rng) string {
 	return c11Salts[r.Pick(5, 3, 2, 2, 1, 1)]
 }
 
+// c11RatesDup: a rate string in which every tuple is well formed and whitelisted but one pair is named twice —
+// priced+priced, abstain+priced (either order), abstain+abstain, adjacent or with another pair in between.
+func c11RatesDup(r *Rng) string {
+	pairs := []string{"ubtc:uusd", "ueth:uusd", "uatom:uusd"}
+	priced := []string{"20000.5", "1700", "1500", "9.25", "1"}
+	abst := []string{"0", "-1", "0.0", "-0.5", "0.000000000000000000"}
+	n := r.Range(2, 4)
+	i := r.Intn(n - 1)
+	j := r.Range(i+1, n-1)
+	dup := pairs[r.Intn(3)]
+	kind := r.Pick(2, 3, 3, 2) // priced+priced | abstain+priced | priced+abstain | abstain+abstain
+	var el []string
+	other := 0
+	for k := 0; k < n; k++ {
+		p, rate := dup, priced[r.Intn(len(priced))]
+		switch {
+		case k == i:
+			if kind == 1 || kind == 3 {
+				rate = abst[r.Intn(len(abst))]
+			}
+		case k == j:
+			if kind == 2 || kind == 3 {
+				rate = abst[r.Intn(len(abst))]
+			}
+		default:
+			for pairs[other] == dup {
+				other++
+			}
+			p = pairs[other]
+			other++
+			if r.Chance(1, 4) {
+				rate = abst[r.Intn(len(abst))]
+			}
+		}
+		el = append(el, "("+p+","+rate+")")
+	}
+	return strings.Join(el, "|")
+}
+
 // c11Respell returns the other spelling of a rate string from the two tables ("" if it has none).
 func c11Respell(s string) string {
 	for k := range c11Rates {
@@ -743,6 +823,9 @@ func genC11Case(r *Rng) c11Input {
 				if r.Chance(1, 6) { // commit to the long (normalised) spelling
 					op.Rates = c11Respell(op.Rates)
 				}
+				if r.Chance(1, 7) { // commit to a string that names one pair twice: the hash-exact reveal must be refused
+					op.Rates = c11RatesDup(r)
+				}
 				if r.Chance(1, 12) {
 					op.HashMode = "upper"
 				}
@@ -759,6 +842,8 @@ func genC11Case(r *Rng) c11Input {
 					Rates: c11Rates[r.Intn(len(c11Rates))]}.withSalt(c11PickSalt(r))
 				if r.Chance(1, 10) {
 					op.Rates = c11RatesOdd[r.Intn(len(c11RatesOdd))]
+				} else if r.Chance(1, 8) {
+					op.Rates = c11RatesDup(r)
 				}
 				switch r.Pick(20, 2, 2, 2, 1) {
 				case 1:
@@ -925,6 +1010,16 @@ func c11Openers() []c11Input {
 			vt(6, 0, 0, "e\u0301", R), vt(6, 0, 0, "\u00c9", R), vt(6, 0, 0, "\u00e9", R),
 			vt(6, 1, 1, "a", R), vt(6, 1, 1, "a\x00", R),
 			vt(7, 2, 2, "\xff", R), vt(7, 2, 2, "\xff\xc3 ", R), vt(7, 2, 2, "\xff\xc3", R)}},
+		// hash-exact reveals of strings that are not a valid vote: one pair named twice (abstain+priced, priced+abstain,
+		// abstain+abstain, priced+priced, with another pair in between), a malformed tuple; all refused, the prevote stays
+		// pending (a later valid commitment replaces it)
+		{VP0: 2, NVals: 3, Ops: []c11Op{
+			pv(2, 0, 0, "1", "(ubtc:uusd,0)|(ubtc:uusd,1700)"), pv(2, 1, 1, "1", "(ubtc:uusd,1700)|(ubtc:uusd,-1)"),
+			pv(3, 2, 2, "1", "(ueth:uusd,0)|(ubtc:uusd,20000.5)|(ueth:uusd,0.0)"), end(3),
+			vt(4, 0, 0, "1", "(ubtc:uusd,0)|(ubtc:uusd,1700)"), vt(4, 1, 1, "1", "(ubtc:uusd,1700)|(ubtc:uusd,-1)"),
+			vt(5, 2, 2, "1", "(ueth:uusd,0)|(ubtc:uusd,20000.5)|(ueth:uusd,0.0)"),
+			pv(5, 0, 0, "1", "(ubtc:uusd,1)|(ueth:uusd,5)|(ubtc:uusd,2)"), pv(5, 1, 1, "1", "(ubtc:uusd,0)|(ubtc:uusd)"), pv(5, 2, 2, "1", "(ubtc:uusd,0)|(ueth:uusd,1500)"), end(5),
+			vt(6, 0, 0, "1", "(ubtc:uusd,1)|(ueth:uusd,5)|(ubtc:uusd,2)"), vt(6, 1, 1, "1", "(ubtc:uusd,0)|(ubtc:uusd)"), vt(6, 2, 2, "1", "(ubtc:uusd,0)|(ueth:uusd,1500)")}},
 		// copy-cat commitment, unbonded validator, VotePeriod edit between prevote and vote
 		{VP0: 5, NVals: 3, Ops: []c11Op{
 			pv(7, 0, 0, "1", R), {Kind: "prevote", H: 7, Feeder: 1, Val: 1, HashFor: 0, HashMode: "honest", Salt: "1", Rates: R},
